@@ -171,6 +171,31 @@ def r09_2b(facts, res, table):
         res.oblige(1, ok)
         if not ok:
             res.add(Finding("R09-2b", name + "|other", "%s() calls f64::%s" % (name, other), f["file"], f["line"], {}))
+    # substring(s, a, b): characters at positions p with round(a) <= p < round(a) + round(b)  (XPath 1.0 4.2): each numeric
+    # argument is rounded on its own - round(a + b) differs for fractions that interact (1.5, 2.6)
+    import e1
+    f = facts.fns[table["substring"]["fid"]]
+    defs = e1.def_sites(facts, f)
+    rounds = [(bi, t) for bi, t in facts.mir_calls(f) if t.get("callee") and facts.callee_name(t["callee"]).endswith("round_half_up")]
+    st["instances"] += 1
+
+    def from_arith(op, depth=0):
+        l = e1.local_of(op)
+        if l is None or depth > 10:
+            return False
+        for kind, _, x in defs.get(l, []):
+            if kind == "stmt":
+                if x["rv"] == "BinaryOp" and x.get("op", "").startswith(("Add", "Sub", "Mul", "Div")):
+                    return True
+                if x["rv"] in ("Use", "Cast") and x.get("ops") and from_arith(x["ops"][0], depth + 1):
+                    return True
+        return False
+    ok = len(rounds) == 2 and not any(from_arith(t["args"][0]) for _, t in rounds)
+    res.oblige(1, ok)
+    if not ok:
+        res.add(Finding("R09-2b", "substring|rounding", "substring(): expected round() applied to the second and to the third argument separately "
+                        "(found %d calls of round_half_up%s)" % (len(rounds), ", one of them on a sum" if any(from_arith(t["args"][0]) for _, t in rounds) else ""),
+                        f["file"], f["line"], {}))
     if st["instances"] < 15:
         raise BrokenCheck("R09-2b: %d primitives (floor 15)" % st["instances"])
 
